@@ -1509,7 +1509,8 @@ impl Formatter {
         .replace(">", "&gt;");
       format!("<pre class=\"mech-code-block\">{}</pre>",escaped_code)
     } else {
-      if code.ends_with('\n') { format!("```\n{}```\n", code) } else { format!("```\n{}\n```\n", code) }
+      let fence = if code.contains("```") { "~~~" } else { "```" };
+      if code.ends_with('\n') { format!("{}\n{}{}\n", fence, code, fence) } else { format!("{}\n{}\n{}\n", fence, code, fence) }
     }
   }
 
